@@ -454,6 +454,12 @@ def install(reg):
             out.append((st_t, v))
         return out
 
+    @ext('unicodedata.normalize')
+    def _normalize(ex, st, args, kw, node):
+        """unicodedata.normalize(form, text): some text determined by (form, text) -- NOT the identity"""
+        form, text = args
+        return [(st, VStr(z3.Function('unicode_normalize', StrS, StrS, StrS)(form.t, text.t)))]
+
     @ext('builtins.iter')
     def _iter(ex, st, args, kw, node):
         v = args[0]
